@@ -559,6 +559,8 @@ def _dcog_samples():
             dict(shape=(272, 272), layout="yx", dtype="uint8", nodata=0, blocksize=[16], chunks=(64, 64)),  # padding to 2**levels adds a WHOLE tile row and column
             dict(shape=(16, 1000), layout="yxs", nsamples=3, dtype="int16", blocksize=[16], chunks=(16, 100)),
             dict(shape=(272, 300), layout="syx", nsamples=2, dtype="uint16", nodata=65535, blocksize=[16], chunks=(272, 300), compression="NONE"),
+            dict(shape=(400, 400), layout="yx", dtype="uint8", blocksize=[256, 128], chunks=((100, 256, 44), (256, 144))),  # IRREGULAR source chunks whose largest chunk equals the tile
+            dict(shape=(400, 400), layout="syx", nsamples=2, dtype="int16", blocksize=[256, 128], chunks=((144, 256), (144, 256))),
             dict(shape=(70, 90), layout="yx", dtype="int32", blocksize=[32], chunks=(32, 32), huge=True),  # band statistics with many digits
             dict(shape=(40, 40), layout="syx", nsamples=3, dtype="uint32", nodata=0, blocksize=[16], chunks=(16, 16), huge=True),
             dict(shape=(33, 47), layout="yxs", nsamples=3, dtype="float64", blocksize=[16], chunks=(33, 47), huge=True, compression="NONE"),
@@ -571,7 +573,7 @@ def _dcog_samples():
             yield dict(case=no_predictor_without_compression(one(i)))
             i += 1
 
-    return "17 fixed (incl. images whose padding adds whole tile rows / columns, full-range int32 / uint32 and 1e300-sized float64 values) + 24 (quick) / 120 (thorough) pseudo-random combinations of 7 shapes (incl. single row / column, narrower than a tile) x YX / YXS / SYX x dtypes x nodata x block-size lists x compression (incl. none) / predictor x source chunking x spill size x writes per chunk x synchronous / threaded scheduler x CRS x rotated", gen()
+    return "19 fixed (incl. irregularly chunked sources, images whose padding adds whole tile rows / columns, full-range int32 / uint32 and 1e300-sized float64 values) + 24 (quick) / 120 (thorough) pseudo-random combinations of 7 shapes (incl. single row / column, narrower than a tile) x YX / YXS / SYX x dtypes x nodata x block-size lists x compression (incl. none) / predictor x source chunking x spill size x writes per chunk x synchronous / threaded scheduler x CRS x rotated", gen()
 
 
 def _dcog_oracle(args, run=None):
@@ -618,7 +620,7 @@ def _dcog_oracle(args, run=None):
     attrs = {} if c["nodata"] is None else {"nodata": c["nodata"]}
     xx = xr.DataArray(pix, coords=xr_coords(g), dims=dims, attrs=attrs)
     cy, cx = c["chunks"]
-    xx = xx.chunk({g.dimensions[0]: min(cy, h), g.dimensions[1]: min(cx, w)})
+    xx = xx.chunk({g.dimensions[0]: cy if isinstance(cy, tuple) else min(cy, h), g.dimensions[1]: cx if isinstance(cx, tuple) else min(cx, w)})
     kw = {}
     if c["blocksize"] is not None:
         kw["blocksize"] = list(c["blocksize"])
